@@ -266,6 +266,19 @@ func genC14(r *Rand, tier string) *Case {
 			left -= p
 		}
 	}
+	if variant == "seeded" && trailer && r.Chance(1, 8) {
+		// empty CopyData messages behind the trailer: the stream has not changed
+		sum := 0
+		for _, p := range pieces {
+			sum += p
+		}
+		if sum < len(stream) {
+			pieces = append(pieces, len(stream)-sum)
+		}
+		for k := r.Range(1, 2); k > 0; k-- {
+			pieces = append(pieces, 0)
+		}
+	}
 	limit := 0
 	if variant == "seeded" && r.Chance(1, 6) {
 		// a small message limit and values of its order of magnitude: every
